@@ -925,11 +925,24 @@ def ec2group_ops(rng, tier, W):
     return ops
 
 
-def generate(ctx, std, bels, lr_stb, lr_pfok, ri_margin=0):
+def generate(ctx, std, bels, lr_stb, lr_pfok, ri_margin=0, only_w=None, light=False):
+    """only_w = 64 / 32: skip the ops meant for the other word size; light: the C19 stream (one large-field dstu curve,
+    no seed generation)"""
     global STB99_LR, PFOK_LR, SRC_RI_MARGIN
     STB99_LR, PFOK_LR, SRC_RI_MARGIN = lr_stb, lr_pfok, ri_margin
     rng, tier = ctx.rng, ctx.tier
     ops = []
+    if only_w == 32:
+        # the 32-bit-word stream: generic groups, one dstu curve, the standard sets of the prime-field schemes
+        ops += ecpgroup_ops(rng, tier, 32) + ec2group_ops(rng, tier, 32)
+        for (sch, name), f in std.items():
+            if sch == "dstu" and int(f[0]) == 163:
+                ops += dstu_ops(rng, tier, 32, f, "dstu-0/w32", True, False)
+            if sch in ("bign", "bign96"):
+                ops.append(Op("W32 %sval %s" % (sch, " ".join(f)), "0", "%s/w32:std" % sch, 32))
+            elif sch == "g12s":
+                ops.append(Op("W32 g12sval " + " ".join(f), "0", "g12s/w32:std", 32))
+        return ops
     for (sch, name), f in std.items():
         short = name.split(".")[-1] if sch != "stb99" and sch != "pfok" else name.replace("1.2.112.0.2.0.1176.2.3.", "")
         prefix = "%s-%s" % (sch, short)
@@ -941,10 +954,12 @@ def generate(ctx, std, bels, lr_stb, lr_pfok, ri_margin=0):
         elif sch == "dstu":
             m = int(f[0])
             heavy = tier != "quick" or m <= 173
-            light = tier == "quick" and m > 163
-            ops += dstu_ops(rng, tier, 64, f, prefix, heavy, light)
-            if m == 163 or tier != "quick":
-                ops += dstu_ops(rng, tier, 32, f, prefix + "/w32", heavy, light or tier == "quick")
+            light_c = tier == "quick" and m > 163
+            if light and m not in (163, 257):
+                continue
+            ops += dstu_ops(rng, tier, 64, f, prefix, heavy, light_c)
+            if only_w is None and (m == 163 or tier != "quick"):
+                ops += dstu_ops(rng, tier, 32, f, prefix + "/w32", heavy, light_c or tier == "quick")
         elif sch == "stb99":
             if tier != "quick" or name in ("test", "1.2.112.0.2.0.1176.2.3.3.1"):
                 ops += stb99_ops(rng, tier, f, prefix)
@@ -960,6 +975,8 @@ def generate(ctx, std, bels, lr_stb, lr_pfok, ri_margin=0):
     # parameter generation from the standard seeds must reproduce the standard parameters (implementation only:
     # prngSTB / priExtendPrime are not modelled; klass prefix "gen:" = not sent to the Lean driver)
     for (sch, name), f in std.items():
+        if light:
+            break
         if sch == "stb99" and (tier != "quick" or name in ("test", "1.2.112.0.2.0.1176.2.3.3.1", "1.2.112.0.2.0.1176.2.3.6.1")):
             ops.append(Op("stb99gen " + " ".join(f[6:10]), "0 " + " ".join(f[:6]), "gen:stb99-" + name))
             g = list(f[6:10])
@@ -977,11 +994,11 @@ def generate(ctx, std, bels, lr_stb, lr_pfok, ri_margin=0):
                       note="the chains of maximal length given in stb99.h (docs/C12.fix-6.diff)"))
     ops += bign_custom_field_ops(rng, tier)
     ops += poly_ops(rng, tier, bels)
-    for W in (64, 32):
+    for W in ((64, 32) if only_w is None else (64,)):
         ops += ecpgroup_ops(rng, tier, W)
         ops += ec2group_ops(rng, tier, W)
     # 32-bit word build: the standard sets of the prime-field schemes once more
-    for (sch, name), f in std.items():
+    for (sch, name), f in (std.items() if only_w is None else []):
         if sch in ("bign", "bign96"):
             ops.append(Op("W32 %sval %s" % (sch, " ".join(f)), "0", "%s/w32:std" % sch, 32))
         elif sch == "g12s":
